@@ -874,6 +874,48 @@ def run(res, tier, seed):
                            "source": inp["src"].decode("utf-8", "replace"), "history": [h.decode("utf-8", "replace") for h in inp["hist"]]})
             break
 
+    # ---- values known by construction: (a) several dice terms with clamps / keeps in one program under min / max mode (each term is
+    #      evaluated on its own: faces 1 resp. Y, clamped, kept), (b) templates x loops x break / continue (lib/c13.py)
+    import c13 as _c13
+    kc = []
+    for _ in range(120 if tier == "quick" else 1200):
+        mode = r.choice([-1, 1])
+        terms, vals = [], []
+        for _t in range(r.randrange(2, 5)):
+            n, y = r.randrange(1, 6), r.choice([4, 6, 8, 10, 20, 100])
+            txt, face, cnt = f"{n}d{y}", (1 if mode < 0 else y), n
+            if r.random() < 0.35 and n > 1:
+                k = r.randrange(1, n)
+                txt += r.choice(["k", "kh", "kl", "q"]) + str(k)
+                cnt = k
+            if r.random() < 0.4:
+                m = r.randrange(1, y + 3)
+                txt += f"min{m}"
+                face = max(face, m)
+            elif r.random() < 0.4:
+                m = r.randrange(0, y + 1)
+                txt += f"max{m}"
+                face = min(face, m)
+            terms.append(txt)
+            vals.append(cnt * face)
+        if r.random() < 0.5:
+            kc.append((" + ".join(terms), str(sum(vals)), mode))
+        else:
+            kc.append(("[" + ", ".join(terms) + "]", "[" + ", ".join(str(v) for v in vals) + "]", mode))
+    kc += [(src, exp, 0) for src, exp in _c13.loop_template_programs(random.Random(seed * 17 + 3), 60 if tier == "quick" else 600)]
+    kc_rows = k2cases.go_run([k2cases.mk_input(src, mode=mode, oplimit=200000) for src, _, mode in kc])
+    kc_bad = 0
+    for (src, exp, mode), row in zip(kc, kc_rows):
+        stp = (row.get("steps") or [{}])[-1]
+        got = go_value(stp.get("val")) if stp.get("ok") else "error: " + str(stp.get("err") or stp.get("perr") or row.get("fatal") or "?")
+        if got != exp:
+            kc_bad += 1
+            if kc_bad <= 2:
+                res.violation({"what": "the program's value differs from the value its parts determine", "source": src, "dice_mode": {-1: "min", 0: "random", 1: "max"}[mode],
+                               "expected": exp, "implementation": got})
+    res.cov["values_known_by_construction"] = {"programs": len(kc), "disagreements": kc_bad,
+                                               "what": "several dice terms with clamps / keeps under min / max mode; templates x loops x break / continue"}
+
     # ---- known findings: deterministic replays
     registered = {f["key"]: f for f in common.known_for(PID)}
     rep_rows = k2cases.go_run([k2cases.mk_input(srcs[-1], hist=srcs[:-1]) for _, srcs, _ in KNOWN_REPLAYS])
